@@ -969,7 +969,9 @@ func (c *Conn) readHandshake() (interface{}, error) {
 	data := c.hand.Bytes()
 	n := int(data[1])<<16 | int(data[2])<<8 | int(data[3])
 	if n > maxHandshake {
-		c.sendAlertLocked(alertInternalError)
+		// not sendAlertLocked: the caller holds c.in, not c.out (a client's Read that met a
+		// renegotiation request runs concurrently with Write)
+		c.sendAlert(alertInternalError)
 		return nil, c.in.setErrorLocked(fmt.Errorf("tls: handshake message of length %d bytes exceeds maximum of %d bytes", n, maxHandshake))
 	}
 	for c.hand.Len() < 4+n {
